@@ -233,7 +233,7 @@ func (tic *TermInCommittee) calcLeaderMemberId(view primitives.View) primitives.
 }
 
 func calcLeaderOfViewAndCommittee(view primitives.View, committeeMembers []interfaces.CommitteeMember) primitives.MemberId {
-	index := int(view) % len(committeeMembers)
+	index := uint64(view) % uint64(len(committeeMembers))
 	return committeeMembers[index].Id
 }
 
